@@ -16,6 +16,8 @@ CONSTANTS
   HU0R <- HU0RAll
   HSCALES <- HScalesAll
   MTOUCHES <- MTouchAll
+  MFAILS <- MFailAll
+  GFAILS <- GFailAll
   HLEN = 16
   PHASEDICTS <- PhaseDicts
   NVER = 3
@@ -23,6 +25,9 @@ CONSTANTS
 INVARIANT HAnswersCurrent
 INVARIANT HPolarOK
 INVARIANT HDecorTracked
+INVARIANT HNoTrace
+INVARIANT MapNoTrace
+INVARIANT MapRaisesIffBlocked
 INVARIANT MapExpCurrent
 INVARIANT MapRepairedCurrent
 INVARIANT DzeroByKey
